@@ -51,11 +51,6 @@ def divDoc (n : Nat) (pr pc : Nat → Rat) (c : Nat → Int) : Rat :=
 def Q (n : Nat) (A : Nat → Nat → Rat) (o i_ : Nat → Rat) (γ : Rat) (c : Nat → Nat) : Rat :=
   sumTo n fun u => sumTo n fun v => if c u = c v then A u v - γ * (o u * i_ v) else 0
 
-/-- the adjacency matrix a modularity kind is about (`get_adjacency` with `force_directed` for Dugué) -/
-def kindAdj (kind : Kind) (nRow nCol : Nat) (B : Nat → Nat → Rat) (forceBip : Bool) : Nat × (Nat → Nat → Rat) :=
-  let bip := forceBip || nRow != nCol
-  if bip then (nRow + nCol, if kind == .dugue then blockDir nRow B else blockAdj nRow B) else (nRow, B)
-
 /-- The objective of each kind, written from the documentation on the input matrix:
     Dugué  `(1/w) Σ (A_ij − γ d⁺_i d⁻_j / w) δ`   (Barber's modularity for a biadjacency matrix),
     Newman `(1/w) Σ (A_ij − γ d_i d_j / w) δ`      (`d` = out-weights),
